@@ -13,6 +13,15 @@ harness prints the router's public live sets; they are compared with the model:
 * `oe c a b`          anchors of connector c's ends = the model's attached ends          (DIVERGE)
 * `oa o n`            `Obstacle::attachedConnectors().size()` = ends attached in the model (DIVERGE)
 * `ock c n`           `ConnRef::routingCheckpoints().size()` = checkpoint vertices connector c owns in the model (DIVERGE)
+* `ocl`               ids in `Router::clusterRefs` = the model's linked clusters (DIVERGE; an id twice = SPECFAIL)
+
+Composite API calls are expanded into the model operations the C++ performs, using the model state for
+what the call copies from the object: `transformPins s` (`ShapeRef::transformConnectionPinPositions`) =
+`touchPin p` for every pin of s; `splitAtSegment c j pin c2` (`ConnRef::splitAtSegment`) = new junction j,
+new connector c2 from j to a copy of c's destination end, c's destination := j; `mergeJunction j c1 d c2`
+(`JunctionRef::removeJunctionAndMergeConnectors`) = c1's end d := copy of c2's other end, delete c2,
+deleteJunction j.  `api router|conn|obst …` lines are calls without lifetime effect (identity in the model,
+legality still checked).
 * the observed state itself must satisfy the spec: no id twice in a list, every anchor reported by
   `oe` is a member of `m_obstacles` (a connector end naming an obstacle the router no longer holds is
   a dangling reference)                                                                  (SPECFAIL)
@@ -34,36 +43,67 @@ def parseEnd (ts : Array String) (i : Nat) : Option (EndSpec × Nat) :=
   | some "A" => some (some ⟨nat! (ts[i+1]?.getD "0"), nat! (ts[i+2]?.getD "0")⟩, i + 3)
   | _ => none
 
-/-- `op` line (without the leading keyword) ↦ model operation; `none` = no lifetime effect -/
-def parseOp (ts : Array String) : Except String (Option Op) :=
+/-- the user-level copy of a connector end (`ConnEnd` copy constructor) -/
+def specOfEnd (e : End) : EndSpec := e.map (fun x => ⟨x.anchor, x.cls⟩)
+
+/-- `op` line (without the leading keyword) ↦ the model operations the call performs, in order (the model
+    state is consulted for composite calls); `[]` = no lifetime effect -/
+def parseOp (s : St) (ts : Array String) : Except String (List Op) :=
   let n (i : Nat) : Nat := nat! (ts[i]?.getD "0")
   match ts[0]? with
-  | some "newShape" => .ok (some (.newShape (n 1)))
-  | some "newJunction" => .ok (some (.newJunction (n 1) (n 2)))
-  | some "newPin" => .ok (some (.newPin (n 1) (n 2) (n 3)))
+  | some "newShape" => .ok [.newShape (n 1)]
+  | some "newJunction" => .ok [.newJunction (n 1) (n 2)]
+  | some "newPin" => .ok [.newPin (n 1) (n 2) (n 3)]
   | some "newConn" =>
     match parseEnd ts 3 with
     | some (a, j) =>
       match parseEnd ts j with
-      | some (b, _) => .ok (some (.newConn (n 1) a b (n 2 == 1)))
+      | some (b, _) => .ok [.newConn (n 1) a b (n 2 == 1)]
       | none => .error "bad newConn dst"
     | none => .error "bad newConn src"
   | some "setEndpoint" =>
     match parseEnd ts 3 with
-    | some (e, _) => .ok (some (.setEndpoint (n 1) (n 2 == 1) e))
+    | some (e, _) => .ok [.setEndpoint (n 1) (n 2 == 1) e]
     | none => .error "bad setEndpoint"
   | some "setRoutingCheckpoints" =>
-    .ok (some (.setRoutingCheckpoints (n 1) ((List.range (n 2)).map (fun i => n (3 + i)))))
-  | some "deleteShape" => .ok (some (.deleteShape (n 1)))
-  | some "deleteJunction" => .ok (some (.deleteJunction (n 1)))
-  | some "deleteConn" => .ok (some (.deleteConn (n 1)))
-  | some "deletePin" => .ok (some (.deletePin (n 1)))
-  | some "moveShape" => .ok (some (.moveShape (n 1)))
-  | some "moveJunction" => .ok (some (.moveJunction (n 1)))
-  | some "processTransaction" => .ok (some .processTransaction)
-  | some "setTransactionUse" => .ok (some (.setTransactionUse (n 1 == 1)))
-  | some "deleteRouter" => .ok (some .deleteRouter)
-  | some "registerHyperedge" => .ok none
+    .ok [.setRoutingCheckpoints (n 1) ((List.range (n 2)).map (fun i => n (3 + i)))]
+  | some "deleteShape" => .ok [.deleteShape (n 1)]
+  | some "deleteJunction" => .ok [.deleteJunction (n 1)]
+  | some "deleteConn" => .ok [.deleteConn (n 1)]
+  | some "deletePin" => .ok [.deletePin (n 1)]
+  | some "moveShape" => .ok [.moveShape (n 1)]
+  | some "moveJunction" => .ok [.moveJunction (n 1)]
+  | some "processTransaction" => .ok [.processTransaction]
+  | some "setTransactionUse" => .ok [.setTransactionUse (n 1 == 1)]
+  | some "deleteRouter" => .ok [.deleteRouter]
+  | some "registerHyperedge" => .ok []
+  | some "newCluster" => .ok [.newCluster (n 1)]
+  | some "deleteCluster" => .ok [.deleteCluster (n 1)]
+  | some "setClusterPoly" => .ok [.setClusterPoly (n 1)]
+  | some "touchConn" => .ok [.touchConn (n 1)]
+  | some "api" =>
+    match ts[1]? with
+    | some "router" => .ok [.apiRouter]
+    | some "conn" => .ok [.apiConn (n 2)]
+    | some "obst" => .ok [.apiObst (n 2)]
+    | _ => .error "bad api line"
+  | some "transformPins" =>
+    -- ShapeRef::transformConnectionPinPositions: Router::modifyConnectionPin for every pin of the shape
+    .ok (.apiObst (n 1) :: (s.pinsOf (n 1)).map (fun p => Op.touchPin p.id))
+  | some "splitAtSegment" =>
+    -- ConnRef::splitAtSegment: `op splitAtSegment c j pin c2`
+    match s.conns.find? (·.id == n 1) with
+    | none => .error "splitAtSegment: connector unknown to the model"
+    | some c =>
+      .ok [.newJunction (n 2) (n 3), .newConn (n 4) (some ⟨n 2, centreCls⟩) (specOfEnd c.dst) true,
+           .setEndpoint (n 1) true (some ⟨n 2, centreCls⟩)]
+  | some "mergeJunction" =>
+    -- JunctionRef::removeJunctionAndMergeConnectors: `op mergeJunction j c1 d c2` (c1 kept, its end d sits on j)
+    match s.conns.find? (·.id == n 4) with
+    | none => .error "mergeJunction: connector unknown to the model"
+    | some c2 =>
+      let other := if endOn c2.src (n 1) then c2.dst else c2.src
+      .ok [.setEndpoint (n 2) (n 3 == 1) (specOfEnd other), .deleteConn (n 4), .deleteJunction (n 1)]
   | some x => .error s!"unknown op {x}"
   | none => .error "empty op"
 
@@ -95,6 +135,9 @@ def opName : Op → String
   | .processTransaction => "processTransaction" | .setTransactionUse _ => "setTransactionUse"
   | .deleteRouter => "deleteRouter" | .rDelConn _ => "rDelConn" | .rDelJunction _ => "rDelJunction"
   | .rNewJunction .. => "rNewJunction" | .rNewConn _ => "rNewConn"
+  | .newCluster _ => "newCluster" | .deleteCluster _ => "deleteCluster" | .setClusterPoly _ => "setClusterPoly"
+  | .touchConn _ => "touchConn" | .touchPin _ => "touchPin" | .apiRouter => "apiRouter"
+  | .apiConn _ => "apiConn" | .apiObst _ => "apiObst"
 
 structure Acc where
   s : St := init
@@ -121,7 +164,8 @@ def applyOp (kf : Bool) (a : Acc) (op : Op) (txt : String) : Acc :=
   let a := { a with s := s', nops := a.nops + 1, stats := bumpStats a.stats ("op." ++ opName op) 1 }
   let a := if !a.s.consolidate then { a with offOps := a.offOps + 1, stats := bumpStats a.stats ("off." ++ opName op) 1 } else a
   let a := match op with
-    | .deleteShape _ | .deleteJunction _ | .deleteConn _ | .deletePin _ => { a with deletes := a.deletes + 1 }
+    | .deleteShape _ | .deleteJunction _ | .deleteConn _ | .deletePin _ | .deleteCluster _ =>
+      { a with deletes := a.deletes + 1 }
     | .rNewConn c => { a with routerMade := c :: a.routerMade }
     | _ => a
   if !kf && s'.faults != [] && legal then
@@ -135,12 +179,18 @@ def checkCaseRouter (c : Case) : CaseResult :=
     let key := l[0]!
     let rest := l.extract 1 l.size
     if key == "op" then
-      match parseOp rest with
+      match parseOp a.s rest with
       | .error e => a.fail (.diverge s!"unparsable op line: {e}")
-      | .ok none => { a with nops := a.nops + 1 }
-      | .ok (some op) =>
-        let a := if op == .deleteRouter then { a with queuedAtDestroy := !a.s.actions.isEmpty } else a
-        applyOp kf a op (" ".intercalate rest.toList)
+      | .ok [] => { a with nops := a.nops + 1 }
+      | .ok ops =>
+        let a := { a with stats := bumpStats a.stats ("call." ++ (if rest[0]! == "api" then "api." ++ (rest[3]?.getD (rest[2]?.getD "?")) else rest[0]!)) 1 }
+        let a := if ops == [.deleteRouter] then
+            { a with queuedAtDestroy := !a.s.actions.isEmpty,
+                     stats := bumpStats a.stats "clusters_alive_at_destroy" (a.s.clusters.length) } else a
+        -- a composite call counts as one harness operation
+        let n0 := a.nops
+        let a := ops.foldl (fun a op => applyOp kf a op (" ".intercalate rest.toList)) a
+        { a with nops := n0 + 1 }
     else if key == "hyper" then
       match parseHyper rest with
       | .error e => a.fail (.diverge e)
@@ -176,6 +226,13 @@ def checkCaseRouter (c : Case) : CaseResult :=
           if anchorOf mc.src != ia || anchorOf mc.dst != ib then
             a.fail (.diverge s!"after op #{a.nops}: connector {cid} anchors ({ia},{ib}), model ({anchorOf mc.src},{anchorOf mc.dst})")
           else a
+    else if key == "ocl" then
+      let impl := natsOf rest
+      let model := sortNat ((a.s.clusters.filter (·.active)).map (·.id))
+      if hasDup impl then a.fail (.specfail s!"after op #{a.nops}: id listed twice in Router::clusterRefs: {impl}")
+      else if impl != model then
+        a.fail (.diverge s!"after op #{a.nops}: clusterRefs = {impl}, model linked clusters = {model}")
+      else a
     else if key == "ock" then
       let cid := nat! (rest[0]?.getD "0")
       let n := nat! (rest[1]?.getD "0")
